@@ -206,6 +206,14 @@ func dec(s string) float64 {
 	return f
 }
 
+type keptSR struct {
+	sr *proj.SR
+	d  string
+}
+
+// references of earlier hist lines, re-inspected at every later hist line ("late check")
+var kept []keptSR
+
 var prjBase string
 
 func prjSR(data string) (*proj.SR, string) {
@@ -296,6 +304,70 @@ func implLine(line string, out *bufio.Writer) {
 		_, rn2 := parseRes(t[1])
 		fmt.Fprintf(&b, "N %s D %s N2 %s EQ %s %s NIL %s USE %s %s %s %s %s %s", rn, rd, rn2, equalRes(N, D), equalRes(D, N), nilRes(N, D),
 			fl(x1), fl(y1), s1, fl(x2), fl(y2), s2)
+		grid(&b, N, D, -71.3, 42.7) // off the equator: through the name and through its definition string
+	case "regalias":
+		A, ra := parseRes(t[1])
+		T, rt := parseRes(t[2])
+		fmt.Fprintf(&b, "A %s T %s EQ %s %s NIL %s %s", ra, rt, equalRes(A, T), equalRes(T, A), nilRes(A, T), nilRes(T, A))
+		grid(&b, A, T, 23.6, -37.8)
+	case "histall":
+		// histall <n> | <hex def>... : parse every text once and keep the references, parse them all n more
+		// times, then look at the kept references again (late check of the whole batch, on one line)
+		type kd struct {
+			sr *proj.SR
+			d  string
+		}
+		var ks []kd
+		for _, h := range t[3:] {
+			if sr, d := parseRes(unhx(h)); sr != nil {
+				ks = append(ks, kd{sr, d})
+			}
+		}
+		for i := 0; i < int(dec(t[1])); i++ {
+			for _, h := range t[3:] {
+				parseRes(unhx(h))
+			}
+		}
+		changed, first := 0, -1
+		for i, k := range ks {
+			if "ok "+dump(k.sr)+" ;" != k.d {
+				changed++
+				if first < 0 {
+					first = i
+				}
+			}
+		}
+		fmt.Fprintf(&b, "CHANGED %d OF %d FIRST %d", changed, len(ks), first)
+	case "hist":
+		// hist <key> <kind> <n> | <hex PROJ.4 naming the datum> <hex WKT spelling it out>
+		p4, w := unhx(t[5]), unhx(t[6])
+		n := int(dec(t[3]))
+		P1, d1 := parseRes(p4)
+		last := P1
+		dn := d1
+		for i := 1; i < n; i++ {
+			last, dn = parseRes(p4)
+		}
+		W, dw := parseRes(w)
+		var g1, g2 strings.Builder
+		glon, glat := 2.5, 49.5
+		grid(&g1, P1, W, glon, glat)
+		grid(&g2, last, W, glon, glat)
+		// late check: the first reference, and every reference kept from earlier hist lines of this process
+		dl := "err ;"
+		if P1 != nil {
+			dl = "ok " + dump(P1) + " ;"
+		}
+		prev := 0
+		for _, k := range kept {
+			if dump(k.sr) != k.d {
+				prev++
+			}
+		}
+		if P1 != nil {
+			kept = append(kept, keptSR{P1, dump(P1)})
+		}
+		fmt.Fprintf(&b, "H %s L %s N %s W %s PREV %d%s%s", d1, dl, dn, dw, prev, g1.String(), g2.String())
 	case "prj":
 		data := unhx(t[1])
 		_, rs := prjSR(data)
